@@ -1,5 +1,6 @@
 import RR.Model.Blocks
 import RR.Model.Hand
+import RR.Model.Source
 import RR.Model.Util
 
 /-!
@@ -163,9 +164,46 @@ def handle (args : String) (registry : String → List Nat → Option Block) : S
     | none => "bad-op"
   | _ => "bad-op"
 
+/-- `vsrc <rep> <len> <seed> <mod>`; rep = 2^32 means infinite -/
+def sourceRegistry (name : String) (p : List Nat) : Option Block :=
+  match name, p with
+  | "vsrc", [rep, len, seed, m] =>
+    some (Src.vsBlock (genData len seed m []) (if rep == 2 ^ 32 then Src.Repeat.infinite else Src.Repeat.finite rep))
+  | _, _ => none
+
 def registry (name : String) (p : List Nat) : Option Block :=
   match syncRegistry name p with
   | some s => some s.block
-  | none => handRegistry name p
+  | none =>
+    match handRegistry name p with
+    | some b => some b
+    | none => sourceRegistry name p
+
+/-- `repeat <n or inf> ; a ; d ; c …`: the `Repeat` API -/
+def handleRepeat (args : String) : String :=
+  match args.splitOn ";" with
+  | hd :: ops =>
+    let init : Option Src.Repeat :=
+      match toks hd with
+      | ["inf"] => some Src.Repeat.infinite
+      | [n] => n.toNat?.map Src.Repeat.finite
+      | _ => none
+    match init with
+    | none => "bad-op"
+    | some r0 =>
+      let step (acc : Option Src.Repeat × List String) (op : String) : Option Src.Repeat × List String :=
+        match acc.1 with
+        | none => acc
+        | some r =>
+          match toks op with
+          | ["a"] =>
+            match r.again with
+            | some (r', b) => (some r', acc.2 ++ [toString b])
+            | none => (none, acc.2 ++ ["panic"])
+          | ["d"] => (some r, acc.2 ++ [toString r.done])
+          | ["c"] => (some r, acc.2 ++ [toString r.count])
+          | _ => (some r, acc.2 ++ ["bad-op"])
+      " ".intercalate (ops.foldl step (some r0, [])).2
+  | [] => "bad-op"
 
 end RR.BlockDriver
